@@ -14,8 +14,8 @@ from common import (NCPU, SIM_DIR, TARGET, VERIF, HarnessError, Rng, cargo_env, 
                     log, run_dir, sh, shim_env, short_hash, sim_bin, write_evidence, write_replay, SHIM_SO, LAUNCH)
 from procsim import HEADER_RE, base_env, run_child, split_driver_output
 
-ROUTES = ["lib", "cli", "compile_file", "compile_dir", "compile_exit"]
-FACTORS = ["entropy", "clock", "envvars", "cwd", "spelling", "stdout", "heap_pad"]
+ROUTES = ["lib", "lib_after_others", "cli", "compile_file", "compile_dir", "compile_exit"]
+FACTORS = ["entropy", "clock", "envvars", "cwd", "spelling", "stdout", "heap_pad", "arg_order"]
 
 
 def gen_env(rng):
@@ -39,6 +39,16 @@ def gen_env(rng):
         ev["SOURCE_DATE_EPOCH"] = str(rng.range(0, 2000000000))
     if rng.coin(200):
         ev["USER"] = rng.choice(["alice", "bob"])
+    if rng.coin(200):
+        ev["HOSTNAME"] = rng.choice(["build-1", "laptop"])
+    if rng.coin(150):
+        ev["TMPDIR"] = rng.choice(["/tmp", "/var/tmp"])
+    if rng.coin(150):
+        ev["HOME"] = rng.choice(["/root", "/nonexistent-home"])
+    if rng.coin(150):
+        ev["CARGO_MANIFEST_DIR"] = rng.choice(["/somewhere/else", "/repo"])
+    if rng.coin(150):
+        ev["OUT_DIR"] = "/somewhere/out"
     return {
         "entropy": rng.below(1 << 62),
         "clock": "%d:%d" % (rng.range(978307200, 2208988800), rng.choice([0, 1000, 1000000000, 86400000000000])),
@@ -47,16 +57,29 @@ def gen_env(rng):
         "spelling": rng.choice(["abs", "rel", "dotrel", "symlink", "redundant"]),
         "stdout": rng.choice(["pipe", "file"]),
         "heap_pad": rng.choice([0, 0, 7, 100, 1000]),
+        "arg_order": rng.below(1 << 30),
     }
 
 
 def gen_sim(seed, i, pool):
     rng = Rng(derive(seed, "c16", i))
-    name, text = rng.choice(pool)
+    # every pool grammar is visited in turn (seeded permutation), so a short run still covers the whole pool
+    perm = list(range(len(pool)))
+    Rng(derive(seed, "c16-perm", i // len(pool))).shuffle(perm)
+    name, text = pool[perm[i % len(pool)]]
     derives = rng.weighted([(None, 50), (["Debug", "Clone", "PartialEq", "Eq"], 30), (["Debug", "Clone", "PartialEq", "Eq", "Hash", "Default"], 5), ([], 15)])
     ctx = "crate::some::Ctx" if rng.coin(150) else None
     prefix = rng.choice(["", "", "use x;", "use x;\n// p", "pub struct ImJustHereToConfuse;"])
     fmt = rng.coin(120)
+    # other grammars compiled in the same process before / next to the one under study (directory mode, repeated library calls)
+    companions = []
+    inc = [t for n, t in pool if b">" in t and n != name]
+    for _ in range(rng.range(1, 3)):
+        n2, t2 = rng.choice(pool)
+        if inc and rng.coin(400):
+            t2 = rng.choice(inc)
+        if t2 != text:
+            companions.append(t2.hex())
     envs = [gen_env(rng) for _ in range(rng.range(2, 4))]
     # some pairs differ in exactly one factor (sharper attribution, and equal paths stay equal)
     if rng.coin(400):
@@ -64,7 +87,7 @@ def gen_sim(seed, i, pool):
         e1 = json.loads(json.dumps(envs[0]))
         e1[f] = gen_env(rng)[f]
         envs[1] = e1
-    return {"id": i, "grammar_name": name, "grammar_hex": text.hex(), "derives": derives, "ctx": ctx, "prefix": prefix, "format": fmt, "envs": envs}
+    return {"id": i, "grammar_name": name, "grammar_hex": text.hex(), "derives": derives, "ctx": ctx, "prefix": prefix, "format": fmt, "companions": companions, "envs": envs}
 
 
 def settings_args(route, sim):
@@ -83,6 +106,8 @@ def settings_args(route, sim):
 
 
 def route_applicable(route, sim):
+    if route == "lib_after_others" and not sim.get("companions"):
+        return False
     if route == "cli" and (sim["ctx"] or sim["derives"] == []):
         return False  # the CLI has no flag for a user context and cannot express the empty derive set
     return True
@@ -122,19 +147,46 @@ def run_route(route, sim, env, simdir, k, stats=None):
     e.update(env["envvars"])
     sa = settings_args(route, sim)
     stdout_path = os.path.join(envdir, "stdout.txt") if env["stdout"] == "file" else None
+    comp_paths = []
+    for ci, chex in enumerate(sim.get("companions", [])):
+        cp = os.path.join(proj, "grammars", "c%d.ebnf" % ci)
+        if route in ("compile_dir", "lib_after_others"):
+            with open(cp, "wb") as f:
+                f.write(bytes.fromhex(chex))
+            comp_paths.append(cp)
+
+    def ordered(groups):
+        # builder methods are called in a seeded order: the same settings must give the same code
+        r = Rng(env.get("arg_order", 0))
+        groups = [g for g in groups if g]
+        r.shuffle(groups)
+        return [x for g in groups for x in g]
+
+    def setting_groups():
+        gs = []
+        d = sim["derives"]
+        if d is not None:
+            gs.append(["--no-derives"] if not d else ["--derives", ",".join(d)])
+        if sim["ctx"]:
+            gs.append(["--ctx", sim["ctx"]])
+        gs.append(["--prefix", sim["prefix"]])
+        if sim["format"]:
+            gs.append(["--format"])
+        return gs
+
     if route == "lib":
         argv = [sim_bin("driver"), "gen", g_sp] + sa
+    elif route == "lib_after_others":
+        argv = [sim_bin("driver"), "gen-multi"] + comp_paths + [g_sp] + sa
     elif route == "cli":
         argv = [cli_bin()] + sa + [g_sp]
     elif route == "compile_dir":
-        argv = [sim_bin("driver"), "compile", "--dir", spell(os.path.join(proj, "grammars"), env["spelling"], simdir, envdir, cwd), "--prefix", sim["prefix"]] + sa
+        argv = [sim_bin("driver"), "compile", "--dir", spell(os.path.join(proj, "grammars"), env["spelling"], simdir, envdir, cwd)] + ordered(setting_groups())
         dest = os.path.join(proj, "grammars", "g.rs")
     else:
-        argv = [sim_bin("driver"), "compile", "--file", g_sp, "--dest", d_sp, "--prefix", sim["prefix"]] + sa
+        argv = [sim_bin("driver"), "compile", "--file", g_sp] + ordered(setting_groups() + [["--dest", d_sp]])
         if route == "compile_exit":
             argv.append("--exit")
-    if sim["format"] and route.startswith("compile"):
-        argv.append("--format")
     c = run_child(argv, cwd, e, entropy=env["entropy"], clock=env["clock"], heap_pad=env["heap_pad"], stdout_path=stdout_path)
     r = {"crashed": c.crashed(), "status": c.status_word(), "ok": False, "bytes": None, "canary": None, "stderr": c.err[-300:].decode(errors="replace")}
     if c.crashed():
@@ -145,7 +197,7 @@ def run_route(route, sim, env, simdir, k, stats=None):
         return r
     canary, marker, rest = split_driver_output(c.out)
     r["canary"] = canary
-    if route == "lib":
+    if route in ("lib", "lib_after_others"):
         r["ok"] = marker == "OK"
         r["bytes"] = rest if r["ok"] else None
         return r
@@ -158,6 +210,12 @@ def run_route(route, sim, env, simdir, k, stats=None):
         if r["bytes"] is None:
             r["ok"] = False
             r["status"] += "+nodest"
+    elif route == "compile_dir" and comp_paths:
+        # a companion grammar that does not compile with these settings fails the whole directory run: not comparable
+        for cp in comp_paths:
+            cc = run_child([sim_bin("driver"), "gen", cp] + settings_args("lib", sim), cwd, e, entropy=env["entropy"])
+            if split_driver_output(cc.out)[1] != "OK":
+                r["skip"] = True
     return r
 
 
@@ -165,7 +223,7 @@ def normalise(route, data, prefix):
     """Generated code without the route's own framing (header, prefix, trailing newline); None if the framing is not there."""
     if data is None:
         return None
-    if route == "lib":
+    if route in ("lib", "lib_after_others"):
         return data[:-1] if data.endswith(b"\n") else data
     m = HEADER_RE.match(data)
     if not m:
@@ -194,8 +252,11 @@ def execute_sim(sim, simdir):
         if not route_applicable(route, sim):
             continue
         for k, env in enumerate(sim["envs"]):
-            outs[(route, k)] = run_route(route, sim, env, simdir, k)
+            rr = run_route(route, sim, env, simdir, k)
             children += 1
+            if rr.get("skip"):
+                continue
+            outs[(route, k)] = rr
             if outs[(route, k)]["canary"]:
                 canaries.add(outs[(route, k)]["canary"])
     for (route, k), r in outs.items():
